@@ -1,6 +1,7 @@
 package main
 
 import (
+	"go/ast"
 	"fmt"
 	"go/types"
 	"strings"
@@ -53,6 +54,90 @@ func runC06(c *Ctx) {
 		return ok && ci.Common().IsInvoke() && ci.Common().Method.Name() == "Update" && isNamed(ci.Common().Value.Type(), "match", "Client")
 	}
 	updatedParam := ssa.Value(param(upd, 3))
+	// ---- offers are made while the registry lock is held (so that the remove function, which takes it for
+	// writing, returns only when no offer to the removed client is still to come)
+	c.Rule("C06.offer-locked", "every Client.Update invocation in package match happens while Match.mu is held (R or W), on every path from every exported entry point that can reach one; the remove function takes the same lock for writing, so no offer follows its return")
+	{
+		hasInvoke := func(f *ssa.Function) bool {
+			found := false
+			instrs(f, func(in ssa.Instruction) {
+				if ci, ok := in.(ssa.CallInstruction); ok && ci.Common().IsInvoke() && ci.Common().Method.Name() == "Update" && isNamed(ci.Common().Value.Type(), "match", "Client") {
+					found = true
+				}
+			})
+			return found
+		}
+		var sites []*ssa.Function
+		for _, f := range P.PkgFuncs("match") {
+			if !P.InTestFile(f) && hasInvoke(f) {
+				sites = append(sites, f)
+			}
+		}
+		covered := map[*ssa.Function]bool{}
+		nOffers := 0
+		for _, f := range P.PkgFuncs("match") {
+			if P.InTestFile(f) || f.Parent() != nil || !ast.IsExported(f.Name()) {
+				continue
+			}
+			reach := false
+			for _, g := range sites {
+				for h := range syncReach(f) {
+					for _, a := range withAnon(h) {
+						if a == g {
+							reach = true
+						}
+					}
+				}
+			}
+			if !reach {
+				continue
+			}
+			c.Analysed(fnName(f))
+			depth := map[*ssa.Function]int{}
+			e := &PPA{MaxVisits: 2, NoAuto: true,
+				Inline: func(fr *Frame, call ssa.CallInstruction, callee *ssa.Function) bool {
+					if callee.Pkg == nil || callee.Pkg != f.Pkg {
+						return false
+					}
+					n := 0
+					for x := fr; x != nil; x = x.Parent {
+						if x.Fn == callee {
+							n++
+						}
+					}
+					_ = depth
+					return n < 1
+				},
+				Watch: func(ev *Ev) bool { return isInvoke(ev) || (isLockOp(ev) && ev.Field == fMu) }}
+			e.Run(f)
+			c.Paths += len(e.Paths)
+			for i := range e.Paths {
+				p := &e.Paths[i]
+				held := 0
+				for j := range p.Trace {
+					ev := &p.Trace[j]
+					if isLockOp(ev) {
+						if lockOps[ev.Label][1] == '+' {
+							held++
+						} else {
+							held--
+						}
+						continue
+					}
+					nOffers++
+					if ci, ok := ev.In.(ssa.CallInstruction); ok {
+						covered[ci.Parent()] = true
+					}
+					c.Check(held > 0, "C06.offer-locked", fnName(f), "Client.Update invoked in "+fnName(ev.In.Parent())+" with Match.mu held", P.Pos(posOf(ev.In)), "path: "+p.String())
+				}
+			}
+			c.Check(!e.Overflow, "C06.offer-locked", fnName(f), "path enumeration complete", P.Pos(f.Pos()), "")
+		}
+		for _, g := range sites {
+			c.Check(covered[g], "C06.offer-locked", fnName(g), "invocation site reached from an exported entry point of the package", P.Pos(g.Pos()), "an offer made outside the analysed entry points is not known to hold the lock")
+		}
+		c.Floor("C06.offer-locked/offers", nOffers, 2)
+	}
 	// ---- once: (*branch).update
 	{
 		c.Analysed(fnName(upd))
